@@ -26,6 +26,29 @@ class ConstIds:
         return f'ConstIds{self.ids!r}'
 
 
+class ConstIdsList:
+    """ids kept in ONE list object that outlives the calls"""
+
+    def __init__(self, ids):
+        self.ids = list(ids)
+
+    def __call__(self):
+        return self.ids
+
+    def __eq__(self, other):
+        return type(other) is ConstIdsList and other.ids == self.ids
+
+    def __hash__(self):
+        return hash(('ConstIdsList', tuple(self.ids)))
+
+    @property
+    def __name__(self):
+        return 'idslist_' + '_'.join(self.ids)
+
+    def __repr__(self):
+        return f'ConstIdsList({self.ids!r})'
+
+
 class NamedPred:
     def __init__(self, sym, args):
         self.sym, self.args = sym, tuple(args)
@@ -65,3 +88,29 @@ class Tagged(Transform, TagMixin):
 
     def other(image):
         return sympool.s151(image)
+
+
+# a constructor argument that is not hashable (it defines __eq__) and whose repr hides the field that matters
+class Cfg:
+    def __init__(self, hidden):
+        self.hidden = hidden
+
+    def __eq__(self, other):
+        return isinstance(other, Cfg) and other.hidden == self.hidden
+
+    def __repr__(self):
+        return 'Cfg()'
+
+
+def _offset(image, cfg):
+    return f'offset[{cfg.hidden}]:{image}'
+
+
+from connectome.interface.edges import Function  # noqa
+
+
+class Offset(Transform):
+    __inherit__ = True
+    _cfg: object
+
+    image = Function(_offset, 'image', '_cfg')
